@@ -109,6 +109,13 @@ async fn api_plan(ctx: &SessionContext, name: &str) -> DFResult<LogicalPlan> {
                     (vec![datafusion::common::Column::from_name("c1")], vec![datafusion::common::Column::from_name("k")]), None, NullEquality::NullEqualsNothing)?
                 .build()?
         }
+        "dict_struct_literals" => {
+            let mut sel = vec![col("c1")];
+            for (i, sv) in crate::c35x::dict_literals().into_iter().enumerate() {
+                sel.push(Expr::Literal(sv, None).alias(format!("d{i}")));
+            }
+            t1.select(sel)?.logical_plan().clone()
+        }
         "alias_metadata" => {
             let mut md = std::collections::HashMap::new();
             md.insert("k".to_string(), "v".to_string());
